@@ -16,7 +16,7 @@ use std::collections::HashMap;
 pub const DEF: PropDef = PropDef {
     id: "C07",
     level: "model_checking",
-    rule: "Part A (counters a_*): for each of the 6 orders of introducing 3 variables all 256 functions are built from minterms in one real SddManager, then every one of the 256x256x{And,Or} operand pairs is applied and must return the handle already denoting that truth table; per function negate, wmc under 3 weight vectors (one with 0/1 weights), enumerate_models, wmc_gradient; exactly_one over all 16 ordered lists of distinct variables declared ExclusiveGroup with (p,1.0) weights, and f AND exactly_one(S) for all 256 f (wmc, gradient). Part B (states/transitions/traces): plain tree search (no de-duplication; every node re-executed from a fresh manager) over op sequences {introduce next variable, literal, apply(h_i,h_j,And|Or), negate(h_i), exactly_one(first k)} from start states with n0 = 0..N-1 variables already introduced and two seed handles, N = 6 quick / 8 thorough; at every leaf additionally a sweep of every alphabet op on the same manager; every handle carries its truth table over the fixed universe of N positions (later variables = don't care) and after every op every pool handle is re-checked (enumerate_models, wmc) and the tracker invariant equal table <=> equal handle must hold. Part C (counters c_*): for every budgeted operation (try_apply over the operand-pair set, try_negate over all 256 functions, try_literal, try_exactly_one) the checkpoints c of an uninterrupted run are counted, then for every k in [0,c+2] a fresh identically prepared manager runs the operation with a deadline callback that turns false at its k-th call, and for every node budget n from the node count before to the node count after (+1, and 0); the result must be Err or Ok(handle denoting the expected table, canonical); after every run the SAME manager is used unbudgeted (same operands, negations, all pairs of the key handles, rebuild from minterms by another route, every tracked handle re-checked); bound 2 = a second interrupted operation after an Err. Non-trivial: A = pair of distinct non-complementary non-constant operands with a result different from both operands, key (a,b,op); B = op sequence (depth <= 3 keys only) whose last op yields a non-constant function depending on a variable introduced inside the sequence and on an older one; C = operation for which at least one interruption strictly inside (k >= 1 or a node budget between before and after) returned Err and the manager was then used again, key (operation, operands).",
+    rule: "Part A (counters a_*): for each of the 6 orders of introducing 3 variables all 256 functions are built from minterms in one real SddManager, then every one of the 256x256x{And,Or} operand pairs is applied and must return the handle already denoting that truth table (canonicity => exactness); per function: negate, wmc under 3 weight vectors (one with 0/1 weights), enumerate_models, wmc_gradient; exactly_one over all 16 ordered lists of distinct variables declared ExclusiveGroup with (p,1.0) weights, and f AND exactly_one(S) for all 256 f (handle, wmc, gradient). Part B (states/transitions/traces): plain tree search without de-duplication, every node re-executed from a fresh manager, over op sequences {introduce next variable, literal, apply(h_i,h_j,And|Or), negate(h_i), exactly_one(first k)} from start states with n0 variables already introduced and two seed handles (exactly_one of all, (x_old AND x_new) OR NOT x_mid); three alphabets: full (all literals, all ordered pairs, all k), core (literals of newest+oldest variable, pairs i<j, exactly_one of first 2 / of all), mini (literals of newest variable, pairs i<j, negate of newest handle, exactly_one of all); at every leaf additionally a sweep of every op of the (core or full) alphabet on the same manager, so sequences are one longer than the tree depth. quick: universe 6: full depth 2+1 and core depth 3+1 from n0=0..5, mini depth 4+1 from n0=1,3,5. thorough: universe 6 full depth 3+1 (n0=0..5), universe 8 full 2+1 and core 3+1 (n0=0..7), universe 8 mini 4+1 (n0=1,3,5,7), universe 6 mini 5+1 (n0=1,3,5). Every handle carries its truth table over the fixed universe (later variables = don't care); after every op every pool handle is re-checked (enumerate_models, wmc), the result's gradient is checked at each node, and the tracker invariant equal table <=> equal handle must hold over every handle the manager ever returned. Part C (counters c_*): for every budgeted operation (try_literal: 18 cases; try_negate: all 256 functions; try_exactly_one: lists over 1..4 (thorough 6) variables, fresh or with literals present; try_apply: all 16x16x2 pairs over 2 variables and over 3 variables quick = NPN-representative x NPN-representative plus 6 diverse functions squared, thorough = all 256x256x2) operands are prepared sparsely from minterms in a fresh manager, the checkpoints c of an uninterrupted run are counted, then for every k in [0,c+2] a fresh identically prepared manager runs the operation with a deadline callback that answers false from its k-th call on, and for every node budget n in {0} + [nodes before, nodes after + 1]; the result must be Err or Ok(handle denoting the expected table, canonical in that manager); after EVERY run the same manager is used unbudgeted: the same operation, a second route to the same function (De Morgan / double negation / reversed list), the dual apply, (heavy mode) all ordered pairs of the key handles under And/Or and a rebuild of every key function from minterms in the other association order, and a re-check of every tracked handle (enumerate_models + wmc). Bound 2: after every first exhaustion (each k, each n) a second budgeted operation (the same again; thorough also the dual apply) is interrupted at every k2 and every n2, then the manager is used again. Each operation's procedure runs in a forked child so that a stack overflow of a corrupted diagram is a recorded failure. Non-trivial: A = pair of distinct non-complementary non-constant operands whose result differs from both, key (a,b,op); B = op sequence (keys only for depth <= 3, all counted in b_nontrivial_nodes) whose last op yields a non-constant function depending on a variable introduced inside the sequence after a handle existed and on an older variable; C = operation for which at least one interruption strictly inside (k >= 1, or a node budget that let at least one allocation happen / was above the initial count) returned Err and the manager was then used again, key (operation, operands).",
     assumptions: &[
         "reference model: truth tables over a fixed universe, WMC and dWMC/dp by direct summation (harness/src/reference/boolfn.rs)",
         "WMC/gradient are compared only where the truth-table sum is unambiguous: Independent variables with pos+neg = 1 (as registered by ensure_variable), and ExclusiveGroup variables (p,1.0) only for functions of the form f AND exactly_one(S) in which every model fixes every group variable; the un-smoothed WMC of other functions under (p,1.0) weights is left open by the statement and not checked",
@@ -549,14 +549,14 @@ fn run_a(ctx: &Ctx, out: &mut ShardOut) {
 fn record(out: &mut ShardOut, case: Value, tags: Vec<String>, f: Fail, reexec: &dyn Fn(&Value) -> Option<(Vec<String>, Fail)>) {
     for attempt in 0..6 {
         if let Some((tags2, f2)) = reexec(&case) {
-            if f2.symptom == f.symptom {
-                let mut tags = tags2;
-                if attempt > 0 {
-                    tags.push("needed_retries".into());
-                }
-                out.fail(case, f.symptom, format!("{} [reproduced on re-execution {}: {}]", f.detail, attempt + 1, f2.detail), tags);
-                return;
+            // any failure of the re-execution confirms the case; the recorded symptom and tags are
+            // those of the re-execution (the first observation is kept in the detail)
+            let mut tags = tags2;
+            if attempt > 0 {
+                tags.push("needed_retries".into());
             }
+            out.fail(case, f2.symptom, format!("{} [first observation: {} / {}; reproduced on re-execution {}]", f2.detail, f.symptom, f.detail, attempt + 1), tags);
+            return;
         }
     }
     let _ = tags;
@@ -980,8 +980,8 @@ fn b_visit<T: Table>(w: &mut BWalk, st: &BRef<T>, ops: &mut Vec<BOp>, last_t: Op
                         }
                     }
                 }
-                if d == 3 && out.samples.len() < 3 && ops.iter().any(|o| matches!(o, BOp::Intro)) && matches!(ops[2], BOp::Apply(..)) {
-                    out.sample(json!({"part": "B", "universe": w.cfg.nuni, "n0": w.n0, "seed_tables": st.pool.iter().take(2).map(|t| t.hex()).collect::<Vec<_>>(),
+                if d == 3 && out.samples.len() < 4 && last_t.map_or(false, |t| bf::is_const(t).is_none()) && ops.iter().any(|o| matches!(o, BOp::Intro)) && matches!(ops[2], BOp::Apply(..)) {
+                    out.sample(json!({"part": "B", "universe": w.cfg.nuni, "n0": w.n0, "pool_tables_after_the_ops": st.pool.iter().map(|t| t.hex()).collect::<Vec<_>>(),
                         "ops": ops.iter().map(|o| o.to_json()).collect::<Vec<_>>(), "result_table": last_t.map(|t| t.hex())}));
                 }
             }
@@ -1848,9 +1848,9 @@ fn run_c(ctx: &Ctx, out: &mut ShardOut) {
                     out.nontrivial(&("C", case));
                     out.count("c_nontrivial_operations", 1);
                 }
-                if let COp::Apply(0x96, 0xe8, true) = case.op {
-                    out.sample(json!({"part": "C", "case": case.to_json(), "bound2": bound2,
-                        "note": "parity AND majority: every checkpoint k, every node budget n, then unbudgeted use of the same manager"}));
+                if out.samples.len() < 3 && matches!(case.op, COp::Apply(..)) && stats.interior_errs > before_interior + 5 {
+                    out.sample(json!({"part": "C", "case": case.to_json(), "bound2": bound2, "interior_exhaustions_of_this_operation": stats.interior_errs - before_interior,
+                        "note": "every checkpoint k and every node budget n on a fresh identically prepared manager, then unbudgeted use of the same manager"}));
                 }
             }
             Err(f) => {
